@@ -99,4 +99,15 @@ theorem tap_history_src (T act : Rat) (rel : Bool) (f : ActionValue × Tick) (re
   rw [h2, value_is_actuated]
   exact tap_history T act rel (f.1.toModel, f.2) (toHist rest)
 
+/-! concrete runs of the translated code (the translation computes; the hypotheses above are satisfiable):
+    two frames of 1/4 s with the key down reach a hold time of 1/2 s — Fired; one frame — Ongoing; released — None;
+    a quick press and release is a Tap -/
+example : (runSrc Hold.evaluate (holdNew (1/2) false (1/2) true) [(.vBool true, ⟨1/4, 1⟩), (.vBool true, ⟨1/4, 1⟩)]).2 = .fired := by
+  decide +kernel
+example : (runSrc Hold.evaluate (holdNew (1/2) false (1/2) true) [(.vBool true, ⟨1/4, 1⟩)]).2 = .ongoing := by decide +kernel
+example : (runSrc Hold.evaluate (holdNew (1/2) false (1/2) true) [(.vBool false, ⟨1/4, 1⟩), (.vBool true, ⟨1/4, 1⟩)]).2 = .none := by
+  decide +kernel
+example : (runSrc Tap.evaluate (tapNew (1/2) (1/2) true) [(.vBool false, ⟨1/4, 1⟩), (.vBool true, ⟨1/4, 1⟩)]).2 = .fired := by
+  decide +kernel
+
 end BEI.Bridge.Source
